@@ -1,67 +1,117 @@
-// C06 scratch probe (will be replaced by the real harness)
+// C06 — no transaction or block creates or destroys value.
+//
+// Bounded exhaustive enumeration on the real node core (verif/minichain: LinkApplication + stores + mempool +
+// BlockExecutor, with an independent replica that checks every block) against a plain-Go reference model of declared
+// value movements:
+//
+//	sweep-*   every (kind x amount class x fee class) of the transaction alphabet as a one-transaction block on the
+//	          prepared base state, in both storage modes, with every tampered variant of every valid confidential tx
+//	hist-*    breadth-first search over chains of blocks (quick: <= 2 blocks x <= 2 txs, thorough: <= 3 x <= 3) over
+//	          small per-family alphabets, de-duplicated on (all balances, nonces, code presence, hidden ledger)
+//
+// See oracle.go for the oracle, ops.go for the alphabet, world.go for the base state.
 package main
 
 import (
+	"flag"
 	"fmt"
-	"math/big"
+	"os"
 
 	"verif/minichain"
-	"verif/txkit"
+	"verif/vk"
 
-	"github.com/lianxiangcloud/linkchain/libs/common"
 	"github.com/lianxiangcloud/linkchain/libs/log"
-	"github.com/lianxiangcloud/linkchain/types"
 )
 
-func must(err error) {
-	if err != nil {
-		panic(err)
-	}
-}
+var (
+	onlyFamily = flag.String("c06-only", "", "run only the families whose name contains this string (debugging)")
+	probeFlag  = flag.String("c06-probe", "", "debugging: run one block given as JSON list of ops on the base state (flat) and print the outcome")
+)
 
 func main() {
 	log.Root().SetHandler(log.DiscardHandler())
-	for _, ring := range []int{1, 2} {
-		c, err := minichain.New(minichain.Options{IsTrie: false, Alloc: txkit.Alloc(nil)})
-		must(err)
-		r, err := c.Replica()
-		must(err)
-		c.Attach(r)
-		kit, led := txkit.NewKit(1), txkit.NewLedger()
-		initial := c.Supply()[common.EmptyAddress]
-		ain, err := kit.AccountToUTXO(txkit.B, 0, []txkit.Dest{txkit.ToWallet(txkit.W0, 0, txkit.LKC(300)), txkit.ToWallet(txkit.W1, 0, txkit.LKC(100))}, nil)
-		must(err)
-		_, err = c.Step(types.Txs{ain})
-		must(err)
-		led.Sync(c)
-		own := led.Spendable(txkit.W0)[0]
-		src, err := led.Source(own, ring)
-		must(err)
-		// the lie: the wallet declares 1000 coins more than the output holds
-		src.Amount = new(big.Int).Add(src.Amount, txkit.LKC(1000))
-		fee := txkit.FeeUin(txkit.DefaultUTXOGas, true, nil)
-		out := new(big.Int).Sub(src.Amount, fee)
-		tx, err := kit.SpendSources(txkit.W0, []*types.UTXOSourceEntry{src}, []types.DestEntry{&types.UTXODestEntry{Addr: txkit.W2.Addr(0), Amount: out}})
-		must(err)
-		err = c.Mempool().AddTx("", txkit.WireCopy(tx))
-		fmt.Printf("ring %d: mempool AddTx of inflated spend: %v\n", ring, err)
-		b, err := c.Step(types.Txs{txkit.WireCopy(tx)})
-		fmt.Printf("ring %d: Step (replica CheckBlock + commit): err=%v\n", ring, err)
-		if err == nil {
-			led.Sync(c)
-			sup := c.Supply()[common.EmptyAddress]
-			fmt.Printf("  block %d committed; accounts %s + hidden %s = %s ; initial %s\n", b.Height, sup, led.Unspent(common.EmptyAddress), new(big.Int).Add(sup, led.Unspent(common.EmptyAddress)), initial)
-			// cash out: U->A
-			o2 := led.Spendable(txkit.W2)[0]
-			utx, amt, err := kit.ToAccountAll(led, txkit.W2, []*txkit.Owned{o2}, 1, txkit.C.Addr)
-			must(err)
-			before := c.Balance(txkit.C.Addr)
-			_, err = c.Step(types.Txs{utx})
-			fmt.Printf("  cash-out of %s to C: err=%v, C gained %s\n", amt, err, new(big.Int).Sub(c.Balance(txkit.C.Addr), before))
-			led.Sync(c)
-			sup = c.Supply()[common.EmptyAddress]
-			fmt.Printf("  accounts %s + hidden %s = %s ; initial %s\n", sup, led.Unspent(common.EmptyAddress), new(big.Int).Add(sup, led.Unspent(common.EmptyAddress)), initial)
-		}
-		c.Close()
+	r := vk.Start("C06", "model_checking")
+	fams := families(r.Quick())
+	if vk.IsWorker() {
+		workerMain(fams)
 	}
+	if *probeFlag != "" {
+		probe(*probeFlag)
+		return
+	}
+	if r.ReplayPath != "" {
+		vk.Fatalf("replay files of C06 name the blocks (ops) from the base state; re-run the tier to reproduce")
+	}
+	defer os.RemoveAll(scratchDir())
+
+	// the base state is built here too: its setup blocks run through the same oracle, and its key is the BFS root
+	rootKeys := map[bool]string{}
+	func() {
+		defer func() {
+			if e := recover(); e != nil {
+				if he, ok := e.(harnessErr); ok {
+					vk.Fatalf("%s", he.msg)
+				}
+				panic(e)
+			}
+		}()
+		for _, trie := range []bool{false, true} {
+			b := base(trie)
+			for _, v := range b.viol {
+				r.Violation(v.Key, v.What, map[string]interface{}{"search": "setup", "trie": trie, "setup": "see setupBlocks() in harness/cmd/c06/world.go"})
+			}
+			rootKeys[trie] = b.snap.key
+		}
+	}()
+	if rootKeys[false] != rootKeys[true] {
+		r.Violation("flat-trie-divergence:base-state", "flat and trie storage modes disagree on the base state", map[string]interface{}{"flat": rootKeys[false], "trie": rootKeys[true]})
+	}
+	r.Sample(map[string]interface{}{"base_state": rootKeys[false]})
+
+	states, trans, tampers, committed := 0, 0, 0, 0
+	var per []interface{}
+	order := familyOrder(r.Quick())
+	for _, name := range order {
+		f := fams[name]
+		if *onlyFamily != "" && !contains(name, *onlyFamily) {
+			continue
+		}
+		res := explore(r, f, rootKeys[f.Trie])
+		states += res.States
+		trans += res.Transitions
+		tampers += res.Stats["tampers"]
+		committed += res.Committed
+		per = append(per, map[string]interface{}{"search": f.Name, "trie": f.Trie, "alphabet_ops": len(f.Ops), "blocks_alphabet": len(f.blocks()),
+			"max_txs_per_block": f.MaxTx, "depth": f.Depth, "depth_completed": res.DepthCompleted, "states": res.States, "per_depth": res.PerDepth,
+			"transitions": res.Transitions, "disabled_candidates": res.Disabled, "blocks_committed": res.Committed, "blocks_rejected": res.Rejected,
+			"stats": sortedStats(res.Stats)})
+		fmt.Printf("%-14s ops=%d blocks=%d depth=%d/%d states=%d %v transitions=%d committed=%d rejected=%d disabled=%d tampers=%d\n", f.Name, len(f.Ops), len(f.blocks()),
+			res.DepthCompleted, f.Depth, res.States, res.PerDepth, res.Transitions, res.Committed, res.Rejected, res.Disabled, res.Stats["tampers"])
+	}
+	r.Set("searches", per)
+	r.Set("states", states)
+	r.Set("transitions", trans)
+	r.Set("traces_validated_against_impl", trans)
+	r.Set("tampered_variants", tampers)
+	r.Set("blocks_committed", committed)
+	r.Set("evaluations", trans+tampers)
+	r.Set("distinct_nontrivial", states)
+	r.Set("rule", "BFS over chains of blocks on the real node core + replica; a transition = one candidate block (CheckTx of every tx, proposer block, replica CheckBlock, commit, full account dump + hidden-ledger scan, comparison with the declared-effects model); non-trivial = distinct (balances, nonces, code presence, hidden ledger) state; every tampered variant = one CheckTx + one replica CheckBlock")
+	r.Assume("range proofs are an ideal functionality of the crypto stand-in (sound and complete); commitments, key images, MLSAG, ring signatures, ECDH are real mathematics")
+	r.Assume("system WASM contracts are absent: fee coefficient = repository default (UTXO fee 5e8 gas), proceeds handler = credit to the foundation account and no-op")
+	r.Assume("contracts of the alphabet: store, reverter, vault (payable, self-destructs to a given beneficiary), token issuer (ISSUE + TRANSFERTOKEN), reverting/invalid creation code; no contract-to-contract calls")
+	r.Assume("every history starts from the prepared base state (2 setup blocks, themselves checked by the same oracle)")
+	if !minichain.RecipeFingerprintOK() {
+		r.Assume(minichain.RecipeAssumption)
+	}
+	r.Finish()
+}
+
+func contains(s, sub string) bool {
+	for i := 0; i+len(sub) <= len(s); i++ {
+		if s[i:i+len(sub)] == sub {
+			return true
+		}
+	}
+	return false
 }
